@@ -97,7 +97,7 @@ def r1(ctx: Ctx) -> None:
     if len(fns) < 20:
         raise AnalysisError(f"read path has only {len(fns)} functions - call graph broken")
     for f in fns:
-        if not ctx.prog.is_known(f):
+        if ctx.prog.is_transparent(f):
             continue  # a helper introduced later: its handlers are judged where it is inlined (in its callers)
         for hn in handler_nodes(ctx, f):
             if hn.id not in ctx.cfg(f).reachable():
@@ -134,6 +134,17 @@ def r2_parsers(ctx: Ctx, rid: str) -> None:
             ex = handler_exits(ctx, f, hn)
             ctx.ob(rid, f, "handler does not return / continue", hn, not ex["return"] and not ex["loop"],
                    "a parse failure never produces a result directly", text=",".join(handler_classes(hn.ast)))  # type: ignore[arg-type]
+        # helpers introduced later that could not be inlined (generators): their handlers are part of the parser too -
+        # a generator that ends quietly on a parse error hands the caller a silently truncated stream
+        helpers = {t.qname: t for hf, n_, _c in [(f, x, None) for x in g.calls()] + ctx.eff.transitive_calls(f)
+                   for t in ctx.eff.callees(hf, n_)
+                   if not ctx.prog.is_known(t) and not ctx.prog.is_transparent(t) and not isinstance(t.node, ast.Lambda)}
+        for t in helpers.values():
+            for hn in handler_nodes(ctx, t):
+                ex = handler_exits(ctx, t, hn)
+                quiet = bool(ex["return"] or ex["loop"] or ex["fallthrough"])
+                ctx.ob(rid, t, "handler of a streaming helper does not end the stream quietly", hn, not quiet,
+                       "records yielded before the failure would be returned as the whole manifest", text=",".join(handler_classes(hn.ast)))  # type: ignore[arg-type]
         last = max(hs, key=lambda n: n.lineno)
         exl = handler_exits(ctx, f, last)
         ctx.ob(rid, f, "the final stage's handler always raises", last, bool(exl["raise"]) and not exl["fallthrough"] and not exl["return"],
@@ -309,6 +320,74 @@ def r4(ctx: Ctx) -> None:
                         ok = True
             ctx.ob("C14.R4", f, "unverified parse unreachable when verification applies", p, ok,
                    "with verify on and a recorded checksum, only the verified parse can run")
+    # the flag handed to the verifying readers is the RESOLVED one (argument -> environment -> default ON), at every call
+    # site, also through helpers / closures that merely pass it on
+    def _resolved(fn: FunctionInfo, e: Optional[ast.AST], at: int, depth: int = 0, seen: Optional[Set[str]] = None) -> Tuple[bool, str]:
+        seen = seen if seen is not None else set()
+        if e is None:
+            return False, "no argument (the reader's own default applies)"
+        org = ctx.slicer(fn).origins(e, at)
+        if any(isinstance(c, ast.Call) and (dotted(c.func) or "").endswith("_resolve_verify_checksums") for c in org["calls"]):
+            return True, ""
+        names = sorted((org["params"] | org["free"]) - {"self"})
+        if not names or depth > 4:
+            return False, f"`{norm_text(e)}` does not derive from _resolve_verify_checksums(...)"
+        # the value is a parameter (or a closure variable = a parameter / local of the enclosing function): discharge it at
+        # every call site of the function that owns it
+        owner = fn
+        for nm in names:
+            own = fn
+            while own is not None and nm not in {p.name for p in own.params}:
+                own = own.parent
+            if own is None:
+                # a local of an enclosing function captured by a closure
+                enc = fn.parent
+                if enc is None:
+                    return False, f"`{nm}` is neither a parameter nor a resolved flag"
+                ge = ctx.cfg(enc)
+                defs = [n for n in ge.nodes if n.kind == "stmt" and isinstance(n.ast, (ast.Assign, ast.AnnAssign))
+                        and getattr(n.ast, "value", None) is not None
+                        and any(isinstance(t, ast.Name) and t.id == nm
+                                for t in (n.ast.targets if isinstance(n.ast, ast.Assign) else [n.ast.target]))]
+                if not defs:
+                    return False, f"`{nm}` has no definition in {enc.name}"
+                for d in defs:
+                    ok_, why_ = _resolved(enc, d.ast.value, d.id, depth + 1, seen)  # type: ignore[union-attr]
+                    if not ok_:
+                        return False, why_
+                continue
+            owner = own
+            key = f"{owner.qname}:{nm}"
+            if key in seen:
+                continue
+            seen.add(key)
+            sites = ctx.eff.call_sites.get(owner.qname, [])
+            if not sites:
+                return False, f"`{nm}` is a parameter of {owner.name}, which has no call site in the package"
+            for caller, n in sites:
+                arg = ctx.eff.bind_arg(n.ast, owner, nm, True)  # type: ignore[arg-type]
+                if arg is None:
+                    p_ = next(p for p in owner.params if p.name == nm)
+                    return False, f"{caller.name} calls {owner.name} without `{nm}` (default {norm_text(p_.default) if p_.default is not None else 'none'})"
+                ok_, why_ = _resolved(caller, arg, n.id, depth + 1, seen)
+                if not ok_:
+                    return False, f"{caller.name} -> {owner.name}({nm}=...): {why_}"
+        return True, ""
+
+    for rq in ("transaction.Table._read_datafile_table", "transaction.Table._iter_file_batches"):
+        rf_ = ctx.fn(rq)
+        vparam = next((p.name for p in rf_.params if p.name == "verify" or p.name.startswith("verify")), None)
+        if vparam is None:
+            raise AnalysisError(f"{rq} has no verify parameter")
+        sites = ctx.eff.call_sites.get(rf_.qname, [])
+        if not sites:
+            raise AnalysisError(f"{rq} has no call site")
+        for caller, n in sites:
+            arg = ctx.eff.bind_arg(n.ast, rf_, vparam, True)  # type: ignore[arg-type]
+            ok_, why_ = _resolved(caller, arg, n.id)
+            ctx.ob("C14.R4", caller, f"{rf_.name}: the verify flag is the resolved one", n, ok_,
+                   "argument -> DATASHARD_VERIFY_CHECKSUMS -> default ON is applied on this path" if ok_ else
+                   f"{why_}: under the default setting this read path skips checksum verification and returns altered rows")
     rv = ctx.fn("transaction.Table._resolve_verify_checksums")
     g = ctx.cfg(rv)
     env = [n for n in g.calls() if n.callee and n.callee.name in ("os.getenv", "os.environ.get")]
